@@ -485,31 +485,37 @@ func run(c *vf.Ctx) {
 			ms.W.RunUntilQuiet(func(k int) int { return rng.Intn(k) }, 200000)
 			rec := newRecorder(ms)
 			pairs := 0
-			// liveRoute: a's table answers a lookup for b with a route to exactly b whose labels, followed over the real
-			// links, end at b (the test for "converged" after the topology changed)
+			// liveRoute: frames are routed hop by hop, every router by its own table. The mesh has converged for (a, b)
+			// when following the tables from a - each router's lookup for b names exactly b and a next hop to which it
+			// has a live link - arrives at b without passing a router twice.
 			liveRoute := func(a, bb int) bool {
-				A, B := ms.Node(a), ms.Node(bb)
-				e, isDst := A.RoutingTable().LookupNearest(B.ID.IP)
-				if e == nil || !isDst || e.DstIP != B.ID.IP {
-					return false
-				}
-				if l := A.Peer.GetLink(B.ID.IP); l != nil && e.NextHop == B.ID.IP {
-					return !l.IsClosing()
-				}
-				cur := A
-				for i, h := range e.Path.Hops {
-					if i == len(e.Path.Hops)-1 {
-						break
+				B := ms.Node(bb)
+				cur := ms.Node(a)
+				var prev *world.Node
+				seenAt := map[*world.Node]bool{}
+				for step := 0; step < 31; step++ {
+					if cur == B {
+						return true
 					}
-					l := cur.Peer.GetLinkByLabel(h.ForwardLabel)
+					if seenAt[cur] {
+						return false
+					}
+					seenAt[cur] = true
+					e, isDst := cur.RoutingTable().LookupNearestRoute(B.ID.IP)
+					if e == nil || !isDst || e.DstIP != B.ID.IP {
+						return false
+					}
+					l := cur.Peer.GetLink(e.NextHop)
 					if l == nil || l.IsClosing() {
 						return false
 					}
-					if cur = ms.W.NodeByIP(l.Peer()); cur == nil {
+					nx := ms.W.NodeByIP(e.NextHop)
+					if nx == nil || nx == prev {
 						return false
 					}
+					prev, cur = cur, nx
 				}
-				return cur == B && len(e.Path.Hops) >= 2
+				return false
 			}
 			pingAll := func(kind string, churned bool) {
 				for a := 1; a <= n; a++ {
